@@ -13,6 +13,7 @@ CLASSES = {"null", "emptyString", "negative", "zero", "gtInt64", "gtUint64", "ne
            "emptyArray", "boolean", "longString", "shortAddress", "badHexAddress", "unknownCurrency", "nullValueAmount", "float", "delete"}
 MC = dict(Classes=CLASSES, Paths={"check", "honest", "direct"}, Outcomes={"reject", "accept"})
 FAMILIES = ["benign", "stake", "deleg", "alleg", "eth"]
+HISTORY_FAMILIES = ["base", "stake", "deleg", "alleg", "eth", "eth5", "valset", "failing"]
 
 
 def run(ctx, replay):
@@ -20,7 +21,7 @@ def run(ctx, replay):
     ctx.sany("Hostile", "Hostile_Trace")
     mc = ctx.tlc("Hostile", "mc.cfg", name="hostile-mc", cfg_text=vlib.cfg_text("HSpec", MC, ["StaysUp"]))
     quick = ctx.quick()
-    n, blocks, per = (3, 10, 3) if quick else (30, 14, 6)
+    n, blocks, per = (3, 10, 4) if quick else (30, 14, 6)
     fams = FAMILIES
     if replay:
         rp = json.load(open(replay))
@@ -64,6 +65,24 @@ def run(ctx, replay):
             classes[k] = classes.get(k, 0) + v
         samples += rep["samples"][:1]
         ctx.log("hostile/%s: %d histories, %d cases, %d deaths" % (fam, rep["scenarios"], rep["events"], rep["dead"]))
+    # every workload family of the other checks: a node death anywhere in a generated history is a C18 violation
+    hist_deaths = 0
+    hist_runs = 0
+    if not replay:
+        for fam in HISTORY_FAMILIES:
+            tf = os.path.join(ctx.tmp, "hist-%s.ndjson" % fam)
+            rep = vdrive(ctx, "ledger", "--family", fam, "--seed", ctx.seed, "--n", 40 if quick else 400, "--blocks", 14, "--out", tf)
+            hist_runs += rep["scenarios"]
+            hist_deaths += rep["dead"]
+            scs = json.load(open(tf + ".scenarios.json"))
+            for d in rep.get("dead_at") or []:
+                # "eth-1-3: check h=5 ETH_REPORT exit=-2"
+                sid, rest = d.split(": ", 1)
+                kind = rest.split()[2] if rest.startswith("check") else "block"
+                sig = {"effect": "node-death-in-history", "stage": rest.split()[0], "kind": kind, "family": fam}
+                sc = [x for x in scs if x["id"] == sid]
+                ctx.violation(sig, {"engine": "history", "family": fam, "scenario": sc[0] if sc else None}, "the node died in generated history %s" % d)
+            ctx.log("histories/%s: %d histories, %d deaths" % (fam, rep["scenarios"], rep["dead"]))
     if total == 0:
         raise vlib.ToolFailure("no hostile case was produced")
     if not replay:
@@ -77,7 +96,7 @@ def run(ctx, replay):
         ctx.notes.append("binding self-test: a case logged as 'application closed itself in DeliverTx' is reported")
     ctx.level = "model_checking"
     ctx.cov.update(states=mc["distinct"], transitions=mc["generated"], traces_validated_against_impl=len(fams), evaluations=total,
-                   distinct_nontrivial=len(fields), cases_per_kind=kinds, cases_per_class=classes, samples=samples,
+                   distinct_nontrivial=len(fields), history_runs=hist_runs, history_deaths=hist_deaths, cases_per_kind=kinds, cases_per_class=classes, samples=samples,
                    rule="one case = one accepted transaction of a generated history with one payload field, sub-field or envelope field set to one hostile value (19 values; or the field deleted), correctly re-signed by the original signers, sent to CheckTx and delivered in place of the original on a fresh replica, followed by a probe transfer; plus 12 sampled byte-level variants per transaction (truncation, bit flips, random bytes up to 64 KiB, JSON insertions, deep nesting); distinct = distinct (kind, field, class)")
     ctx.assumptions += ["'all byte strings' is sampled; the field x class product is complete for the fields of the kinds in the workload families",
                         "each case runs in its own worker process so that os.Exit and a closed application are observed from outside"]
